@@ -147,6 +147,10 @@ INITS = {
     "E": [],
     "P12": [D(k, "A", "1") for k in S.KIND_NAMES if k != "mix"] + [D(k, "B", "2") for k in S.KIND_NAMES if k != "mix"]
            + [D("mix", "A", "1"), D("mix", "B", "2")],
+    # every kind defined once singly (1) and once as a range (2-3): what a range definition leaves behind on its head
+    # entry is exercised by the operations that follow
+    "R23": [D(k, "A", "1") for k in S.KIND_NAMES if k != "mix"] + [D(k, "B", "2-3") for k in S.KIND_NAMES if k != "mix"]
+           + [D("mix", "A", "1"), D("mix", "B", "2-3")],
 }
 KIND_GROUPS = [["solution", "exchange", "surface"], ["equilibrium_phases", "gas_phase", "solid_solutions"],
                ["kinetics", "mix", "reaction"], ["reaction_temperature", "reaction_pressure", "solution"]]
@@ -986,11 +990,11 @@ def run(tier):
     done, res = explore_level(neg, ev, findings, pool, dl, samples)
     ev.bound("negative target number: COPY <kind> 1 -1 for %d kinds, run under a CPU and memory limit" % len(neg), done, cases=len(neg),
              returned=sum(1 for r in res if r["key"].endswith(":returned")))
-    st, ok = bfs(["E", "P12"], "full", 2, ev, findings, pool, dl, samples, "full alphabet")
+    st, ok = bfs(["E", "P12", "R23"], "full", 2, ev, findings, pool, dl, samples, "full alphabet")
     ev.extra["levels_full"] = st
     if tier == "thorough" and ok:
         for i, g in enumerate(KIND_GROUPS):
-            st, ok = bfs(["E", "P12"], "g%d" % i, 3, ev, findings, pool, dl, samples, "kinds %s" % "+".join(g))
+            st, ok = bfs(["E", "P12", "R23"], "g%d" % i, 3, ev, findings, pool, dl, samples, "kinds %s" % "+".join(g))
             ev.extra["levels_g%d" % i] = st
             if not ok:
                 break
